@@ -156,7 +156,7 @@ fn main() {
         let msg = if let Some(s) = info.payload().downcast_ref::<&str>() { s.to_string() } else if let Some(s) = info.payload().downcast_ref::<String>() { s.clone() } else { "?".into() };
         PANICS.lock().unwrap().push((loc, msg));
     }));
-    let n = cli.cases(6_000, 300_000);
+    let n = cli.cases(30_000, 300_000);
     for idx in cli.index_range(n) {
         let mut rng = Rng::for_case(cli.seed, cli.shard, idx);
         let (boxes, fam) = gen_set(&mut rng);
@@ -287,7 +287,7 @@ fn main() {
     {
         use vh::posref::own_shares;
         use vh::trk::*;
-        let nh = cli.cases(48, 1200);
+        let nh = cli.cases(96, 1200);
         for k in cli.index_range(nh) {
             if k >> 40 != 0 {
                 continue;
